@@ -62,7 +62,10 @@ _add("C11", "Pfdl.Check.validate_nil_iff", "Pfdl.Check.checkTask_congr", "Pfdl.C
      "Pfdl.Props.C11.nesting_compositional")
 _add("C13", "Pfdl.Props.C13.table_complete", "Pfdl.Props.C13.applyOp_sem", "Pfdl.Props.C13.exec_eq_sem", "Pfdl.Props.C13.decision_eq_truth",
      "Pfdl.Props.C13.mul_div_above_add_sub", "Pfdl.Props.C13.add_sub_above_comparisons", "Pfdl.Props.C13.comparisons_above_and_above_or",
-     "Pfdl.Props.C13.left_associative", "Pfdl.Props.C13.negation_rank", "Pfdl.Props.C13.k10_witness", "Pfdl.Props.C13.minus_plus_split_harmless")
+     "Pfdl.Props.C13.left_associative", "Pfdl.Props.C13.negation_rank", "Pfdl.Props.C13.k10_witness", "Pfdl.Props.C13.minus_plus_split_harmless",
+     "Pfdl.ExprParse.parseWith_flat", "Pfdl.ExprParse.parseWith_iff", "Pfdl.Props.C13.reading_iff", "Pfdl.Props.C13.table_vs_ordinary",
+     "Pfdl.Props.C13.ordinary_reading_iff", "Pfdl.Props.C13.common_fragment_agrees", "Pfdl.Props.C13.flat_rot", "Pfdl.Props.C13.sem_rot",
+     "Pfdl.Props.C13.decision_of_ordinary_reading", "Pfdl.Props.C13.canonB_iff")
 _add("C12", "Pfdl.Denter.run_ok", "Pfdl.Denter.run_spec", "Pfdl.Props.C12.blocks_balanced", "Pfdl.Props.C12.crlf_indent", "Pfdl.Props.C12.crlf_irrelevant",
      "Pfdl.Props.C12.blank_lines_irrelevant", "Pfdl.Props.C12.leading_lines_irrelevant", "Pfdl.Props.C12.final_newline_irrelevant",
      "Pfdl.Props.C12.nesting_from_depths", "Pfdl.Props.C12.indentation_width_irrelevant", "Pfdl.Props.C12.trailing_blank_irrelevant",
